@@ -20,17 +20,11 @@ opaque!(BusListener);
 //@item core/src/message/call_function_reply.rs enum CallFunctionResult
 //@item core/src/message/call_function_reply.rs struct CallFunctionReply
 //@item core/src/message/abort_function_call.rs struct AbortFunctionCall
+//@item core/src/message/call_function2.rs struct CallFunction2
 
-pub trait IntoMessage {}
-impl IntoMessage for CallFunctionReply {}
-impl IntoMessage for AbortFunctionCall {}
-
-impl VersionedMessage {
-    #[verifier::external_body]
-    pub fn new<T: IntoMessage>(msg: T, version: Option<ProtocolVersion>) -> (r: Self) { unimplemented!() }
-    #[verifier::external_body]
-    pub fn with_version<T: IntoMessage>(msg: T, version: ProtocolVersion) -> (r: Self) { unimplemented!() }
-}
+// protocol minor version that introduced each message kind sent by these handlers (0 = base protocol 1.14)
+impl IntoMessage for CallFunctionReply { open spec fn min_minor() -> u32 { 0 } }
+impl IntoMessage for AbortFunctionCall { open spec fn min_minor() -> u32 { 16 } }
 
 // ---- callee structures: real structs, methods ASSUMED with the contracts verified in their leaf units ---------
 //@item broker/src/serial_map.rs struct SerialMap
@@ -64,8 +58,12 @@ impl ConnectionState {
             },
     //@end
 
+    // sending only pushes into the connection's outgoing queue (interior mutability); no broker state changes.
+    // Precondition: the message kind exists in the connection's negotiated protocol version (see handler_prelude.rs).
     #[verifier::external_body]
-    pub(crate) fn send(&self, msg: VersionedMessage) -> (r: Result<(), ()>) { unimplemented!() }
+    pub(crate) fn send(&self, msg: VersionedMessage) -> (r: Result<(), ()>)
+        requires self.version.allows(msg.min_minor())
+    { unimplemented!() }
 }
 
 // ---- Broker -------------------------------------------------------------------------------------------
@@ -180,6 +178,23 @@ impl Broker {
         ensures
             // an abort request only queues work; the tables are not touched by the request itself
             *final(self) == *old(self),
+            // AbortFunctionCall exists since protocol 1.16: a connection negotiated below that is closed (Err drops it)
+            old(self).conns@.contains_key(*id) ==> (r is Err <==>
+                ProtocolVersion::lex_cmp(old(self).conns@[*id].version, ProtocolVersion::V1_16) == core::cmp::Ordering::Less),
+            !old(self).conns@.contains_key(*id) ==> r is Ok,
+    //@end
+
+    // routing of the call itself: ref patterns (outside Verus's subset); no contract, body not verified
+    //@fn broker/src/broker.rs Broker::call_function_impl nobody
+    //@end
+
+    //@fn broker/src/broker.rs Broker::call_function2
+        ensures
+            // CallFunction2 exists since protocol 1.19: a connection negotiated below that is closed and nothing happens
+            (old(self).conns@.contains_key(*id)
+                && ProtocolVersion::lex_cmp(old(self).conns@[*id].version, ProtocolVersion::V1_19) == core::cmp::Ordering::Less)
+                ==> r is Err && *final(self) == *old(self),
+            !old(self).conns@.contains_key(*id) ==> r is Ok && *final(self) == *old(self),
     //@end
 }
 
